@@ -582,7 +582,13 @@ def main(modname, argv):
                 continue
             hang = len(sig) > 2 and sig[2] == 'hang'
             small, runs = (case, 0) if hang else ddmin(mod, case, sig, ddbudget)
-            out = Outcome() if hang else run_case(mod, small)
+            try:
+                out = Outcome() if hang else run_case(mod, small)
+            except HarnessError:
+                # (the shrunk case left the interpreter's domain on this run - a failure that is not
+                # reproducible step by step under the changed code; report the original case)
+                small = case
+                out = run_case(mod, small)
             m = [f.msg for f in out.failures if f.sig == sig]
             path = write_replay(prop, sig, small, m[0] if m else msg)
             violations.append((sig, path, (m[0] if m else msg) + '\n(seen %d times; shrunk in %d runs)' % (n, runs)))
